@@ -61,6 +61,9 @@ type childSpec struct {
 	Start    int        `json:"start,omitempty"` // resume: skip calls with index < Start
 	ListOnly bool       `json:"list_only,omitempty"`
 	MaxStack int        `json:"max_stack,omitempty"`
+	// enumerate only the packages whose path starts with Local + "/", and ask for every function through every
+	// one of these packages ("src" cases)
+	Local string `json:"local,omitempty"`
 }
 
 type altOut struct {
@@ -125,6 +128,37 @@ func childMain(args []string) int {
 	calls := spec.Calls
 	if len(calls) == 0 {
 		calls = enumerate(u, spec.Patterns)
+		if spec.Local != "" {
+			var vias []string
+			seen := map[string]bool{}
+			var sel []callSpec
+			for _, c := range calls {
+				if strings.HasPrefix(c.Pkg, spec.Local+"/") {
+					sel = append(sel, c)
+					if !seen[c.Pkg] {
+						seen[c.Pkg] = true
+						vias = append(vias, c.Pkg)
+					}
+				}
+			}
+			for _, pth := range spec.Patterns { // a package without functions is still a package to ask through
+				if !seen[pth] {
+					seen[pth] = true
+					vias = append(vias, pth)
+				}
+			}
+			calls = nil
+			for _, c := range sel {
+				calls = append(calls, c)
+				for _, v := range vias {
+					if v != c.Pkg {
+						c2 := c
+						c2.Via = v
+						calls = append(calls, c2)
+					}
+				}
+			}
+		}
 		if spec.Stride > 1 {
 			var sel []callSpec
 			for i, c := range calls {
